@@ -1,9 +1,10 @@
 (* C02 - the tracer never touches memory outside the current packet buffer (partial).
 
    In the model a store outside [0, packet_size) is not performed: `ser` returns None and the world
-   gets the sticky error flag with event EErr 1 (EErr 2: the assert of _reserve_er_space).  So
-   "no access outside the buffer" is "w_err stays false".  Proved, for ALL configurations, oracles
-   and histories unless stated:
+   gets the sticky error flag with event EErr 1.  So "no access outside the buffer" is "w_err stays
+   false".  (EErr 2, the former assert of _reserve_er_space, is no longer produced: S18 is
+   repaired, the record is discarded instead.)  Proved, for ALL configurations, oracles and
+   histories unless stated:
    * C02_buffer_length_invariant: the buffer keeps its length = packet_size in every reachable
      world (every store the model performs is inside it);
    * C02_size_pass_mirrors_serialization: whenever serialization of an operation succeeds, the size
@@ -11,13 +12,22 @@
    * C02_fitting_structure_in_bounds: for operations built from a well-formed structure, if the
      end computed by the size pass fits the packet then serialization succeeds, ends exactly there
      and keeps the buffer length (no store outside);
-   * C02_record_in_bounds_partial: after a successful _reserve_er_space, if the size that was
-     reserved is the record's size at the position finally used (size_stable: always true without
-     a packet switch, see C02_size_stable_without_switch), every store of the record is inside the
-     packet and the record ends at start + size <= packet_size;
-   * the full statement (without size_stable) is FALSE for the faithful model and for the real
-     code: C02_refuted_stale_size (S9) and C02_refuted_smaller_buffer (S18), witnesses replayed on
-     the compiled tracer by the check (known findings).
+   * C02_record_in_bounds: both defects that falsified the full statement are repaired in /repo
+     and in the model - S9 (stale size after a packet switch: the size is computed again at the new
+     position and the record discarded when it does not fit) and S18 (smaller buffer installed
+     during the switch: the assert became a discard).  Now, with NO size_stable premise: after a
+     successful _reserve_er_space that passed the post-switch check, every store of the record is
+     inside the packet, and the record occupies exactly the size the size pass gives at the
+     position where it is written, ending <= packet_size.  Remaining premises: well-formed record
+     field types, no error so far, position inside the packet (false only when the buffer is
+     smaller than the packet header + context, whose skipped fields are not bounds-checked);
+   * C02_successful_reservation_fits: a successful reservation guarantees the space in the CURRENT
+     packet (no "no error" premise any more);
+   * C02_record_in_bounds_partial: the earlier form under size_stable, still true (see
+     C02_size_stable_without_switch);
+   * C02_regression_stale_size / C02_regression_smaller_buffer: the histories that used to refute
+     the full statement (former C02_refuted_stale_size / C02_refuted_smaller_buffer) now end
+     without error, with one discard, in bounds.
    No C90 undefined operation at the bit-field level: C08 (result is Some).
    Validated, not proved (named): the compiled object's actual memory accesses (AddressSanitizer +
    UBSan builds with exact-size heap buffers on every correspondence run), reads of caller data,
@@ -71,22 +81,74 @@ Theorem C02_size_stable_without_switch :
 Proof. intros d e args w0 w1 ae H Hle ->. rewrite H. f_equal. apply Nat.add_comm || idtac. symmetry. apply Nat.sub_add in Hle. rewrite Nat.add_comm. exact Hle. Qed.
 Print Assumptions C02_size_stable_without_switch.
 
-Theorem C02_refuted_stale_size :
-  exists d buf oracle h, let w := run d buf [] oracle h in w_err w = true /\ has_err 1 (w_log w) = true.
-Proof.
-  exists d_s9, 21, [], h_s9. pose proof s9_witness as [H _]. cbn [forallb] in H.
-  apply andb_true_iff in H. destruct H as [H _]. apply andb_true_iff in H. exact H.
-Qed.
-Print Assumptions C02_refuted_stale_size.
+(* after the repairs of S9 and S18.  w: the world in which the tracing function computes the size
+   (after its entry clock sample); w1: the world after the reservation;
+   Lemmas.trace_recheck d e args at0 w1: the post-switch check (true: go on with the record) *)
+Theorem C02_record_in_bounds :
+  forall d e args w w1 at_end,
+  wf_rec d = true -> In e (d_erts d) ->
+  size_parts (rec_parts d e 0%Z args) (c_at (w_c w)) = Some at_end ->
+  reserve d (set_c w (set_in_ts (w_c w) true)) (at_end - c_at (w_c w)) = (true, w1) ->
+  fst (trace_recheck d e args (c_at (w_c w)) w1) = true ->
+  w_err w1 = false -> len_ok w1 -> c_at (w_c w1) <= c_psize (w_c w1) ->
+  forall ts,
+  let w2 := ser_parts d w1 (rec_parts d e ts args) in
+  w_err w2 = false /\ size_parts (rec_parts d e 0%Z args) (c_at (w_c w1)) = Some (c_at (w_c w2)) /\
+  c_at (w_c w1) <= c_at (w_c w2) /\ c_at (w_c w2) <= c_psize (w_c w2) /\ len_ok w2.
+Proof. exact record_in_bounds_repaired. Qed.
+Print Assumptions C02_record_in_bounds.
 
-Theorem C02_refuted_smaller_buffer :
-  exists d buf oracle h, let w := run d buf [] oracle h in w_err w = true /\ has_err 2 (w_log w) = true.
-Proof.
-  exists d_s18, 16, o_s18, h_s18. pose proof s18_witness as [H _]. apply andb_true_iff in H. exact H.
-Qed.
-Print Assumptions C02_refuted_smaller_buffer.
+Theorem C02_successful_reservation_fits :
+  forall d w n w1, reserve d w n = (true, w1) ->
+    gt_diff32 n (c_psize (w_c w1)) (c_at (w_c w1)) = false.
+Proof. exact reserve_ok_nf. Qed.
+Print Assumptions C02_successful_reservation_fits.
+
+(* regression: the former witness of S9 (buffers of 21, 22, 23 bytes: record sized 72 bits before
+   the switch, 96 bits needed after it) - no error, the record is discarded once and counted, the
+   position and the buffer length stay in bounds, the new packet is open and empty *)
+Example C02_regression_stale_size :
+  forallb (fun buf => let w := run d_s9 buf [] [] h_s9 in
+                      negb (w_err w) && (n_disc (w_log w) =? 1) && (c_disc (w_c w) =? 1) && in_bounds w &&
+                      c_open (w_c w) && (c_at (w_c w) =? c_off_content (w_c w)))
+          [21; 22; 23] = true
+  /\ (let w := run d_s9 24 [] [] h_s9 in negb (w_err w) && (n_disc (w_log w) =? 0)) = true.
+Proof. exact s9_regression. Qed.
+
+(* regression: the former witness of S18 (the closing callback of the switch installs a 13-byte
+   buffer) - no error, no EErr 2, one discard *)
+Example C02_regression_smaller_buffer :
+  (let w := run d_s18 16 [] o_s18 h_s18 in
+   negb (w_err w) && negb (has_err 2 (w_log w)) && (n_disc (w_log w) =? 1) && (c_disc (w_c w) =? 1) &&
+   in_bounds w && (c_psize (w_c w) =? 104) && c_open (w_c w) && (c_at (w_c w) =? c_off_content (w_c w))) = true
+  /\ w_err (run d_s18 16 [] [] h_s18) = false.
+Proof. exact s18_regression. Qed.
 
 (* non-vacuity: the hypotheses of C02_record_in_bounds_partial hold on a concrete run (the 24-byte
    variant of the S9 configuration: the record fits after the switch) *)
 Example C02_example_no_error : w_err (run d_s9 24 [] [] h_s9) = false /\ wf_rec d_s9 = true.
 Proof. vm_compute. split; reflexivity. Qed.
+
+(* non-vacuity of C02_record_in_bounds with a packet switch: 25-byte buffer, three small records
+   then the 64-bit aligned one: sized 88 bits at bit 168 (does not fit), the packet is switched, the
+   size computed again at bit 96 is 96 bits and fits: all premises hold and the position moved *)
+Example C02_example_switch :
+  let w := run d_s9 25 [] [] [COpen; CTrace 0 [VArr [VInt 1]]; CTrace 0 [VArr [VInt 1]]; CTrace 0 [VArr [VInt 1]]] in
+  let e := mk_ert 1 None (Some (mk_sft 1 [("b"%string, FInt false 64 64)])) in
+  let args := [VArr [VInt 2]] in
+  exists at_end w1,
+    wf_rec d_s9 = true /\ In e (d_erts d_s9) /\
+    size_parts (rec_parts d_s9 e 0%Z args) (c_at (w_c w)) = Some at_end /\
+    reserve d_s9 (set_c w (set_in_ts (w_c w) true)) (at_end - c_at (w_c w)) = (true, w1) /\
+    fst (trace_recheck d_s9 e args (c_at (w_c w)) w1) = true /\
+    w_err w1 = false /\ len_ok w1 /\ c_at (w_c w1) <= c_psize (w_c w1) /\
+    c_at (w_c w) = 168 /\ c_at (w_c w1) = 96.
+Proof.
+  cbv zeta. eexists. eexists.
+  split; [vm_compute; reflexivity|]. split; [right; left; reflexivity|].
+  split; [vm_compute; reflexivity|].
+  split; [vm_compute; reflexivity|].
+  split; [vm_compute; reflexivity|]. split; [vm_compute; reflexivity|].
+  split; [vm_compute; reflexivity|]. split; [vm_compute; repeat constructor|].
+  split; vm_compute; reflexivity.
+Qed.
